@@ -13,6 +13,9 @@ use crate::{
 use serde_json::json;
 use std::collections::HashSet;
 
+/// witnesses minimised so far in this run (minimising is expensive: only the first few are)
+static MINIMISED: std::sync::atomic::AtomicUsize = std::sync::atomic::AtomicUsize::new(0);
+
 pub const ABSENT_PROBES: &[&str] = &["x", "x/y/z", "a/zz", "q"];
 
 /// Runs one sequence on a fresh core. Full read-back after the requests selected by `check_at`.
@@ -184,7 +187,8 @@ pub fn run(ctx: &Ctx) -> Evidence {
                 ev.count("requests_accepted", acc as u64);
                 ev.count("requests_rejected", rej as u64);
                 if let Some(d) = diff {
-                    let ops = minimise(&runner, ops, &quirks);
+                    // minimising is expensive: only the first witnesses of a run are minimised
+                    let ops = if MINIMISED.fetch_add(1, std::sync::atomic::Ordering::Relaxed) < 4 { minimise(&runner, ops, &quirks) } else { ops.into_iter().take(60).collect() };
                     ev.violation(
                         format!("C01 random: {}", diff_class(&d)),
                         json!({"sequence_minimised": seq_json(&ops), "difference": d, "stream": i}),
@@ -195,7 +199,7 @@ pub fn run(ctx: &Ctx) -> Evidence {
             }
             Err(p) => {
                 ev.eval(None);
-                let ops = minimise(&runner, ops, &quirks);
+                let ops = if MINIMISED.fetch_add(1, std::sync::atomic::Ordering::Relaxed) < 4 { minimise(&runner, ops, &quirks) } else { ops.into_iter().take(60).collect() };
                 ev.violation(
                     format!("C01 random: core panicked: {}", diff_class(&p)),
                     json!({"sequence_minimised": seq_json(&ops), "panic": p, "stream": i}),
